@@ -434,6 +434,9 @@ fn skip_kind(generic: &'static str, r: &RefLex, d: &[u8], open_idx: usize, close
     if shape == SkipShape::None { return generic; }
     match byte_skip_report(d, r.ends[open_idx]) {
         Some(b) if b == res => if shape == SkipShape::QuoteInUnquoted { "skip-quote-inside-unquoted" } else { "skip-brace-inside-interpolation" },
+        // same mis-landing, but the pseudo-token that starts there does not fit a small buffer: the skip outcome agrees
+        // with the byte-level skipper and the next read reports BufferFull
+        Some(b) if b.split(' ').next() == res.split(' ').next() && res.ends_with(" err:full") => if shape == SkipShape::QuoteInUnquoted { "skip-quote-inside-unquoted" } else { "skip-brace-inside-interpolation" },
         _ => generic,
     }
 }
